@@ -1,59 +1,64 @@
 (** * C08 - explicit error handling
 
-    Model: model/Scope.v.  A Raise event carries the classes that guard it lexically: the arms of the
-    enclosing handles (for the guarded statement only) and the `raise [..]` of the enclosing
-    function.  [raise_ok]: inside a function body one of them is an ancestor of the raised class. *)
+    Model: model/Scope.v.  [check_program T restored] is the code as it is (since the repair
+    c08_handle_restores: the caught set is put back after a handle and for its arms, a function body
+    starts from its own declared raises); [repaired] additionally checks the declared raises of method
+    calls - what the property demands; [as_is] is the rule set BEFORE the repair.
+    A Raise event carries the classes that guard it lexically: the arms of the enclosing handles (for
+    the guarded statement only) and the `raise [..]` of the enclosing function.  [raise_ok]: inside a
+    function body one of them is an ancestor of the raised class. *)
 From Coq Require Import List Bool Arith.
 Import ListNotations.
-From MambaModel Require Import model.Scope proofs.ScopeProps proofs.ScopeWitness.
+From MambaModel Require Import model.Scope proofs.ScopeProps proofs.ScopeWitness proofs.ScopeModes.
 
-(** The full statement is false of the code, in four ways. *)
-Theorem C08_sound_refuted : exists T p, unguarded T p.
-Proof. exact ScopeWitness.C08_sound_refuted. Qed.
+(** The full statement is still false of the code: the declared raises of a METHOD call are never
+    checked [D19]. *)
+Theorem C08_sound_refuted : exists T p, unguarded_in restored T p.
+Proof. exact ScopeWitness.C08_sound_refuted_restored. Qed.
 
-(** D19: the declared raises of a method call are never checked *)
-Theorem C08_method_raises_unchecked : unguarded (tabs_of ct1 [(2, [1])] [] p_method) p_method.
-Proof. exact ScopeWitness.C08_method_raises_unchecked. Qed.
-(** D50: after a handle its classes stay caught for the rest of the block *)
-Theorem C08_leak_after_handle : unguarded (tabs_of ct1 [] [] p_leak_after) p_leak_after.
-Proof. exact ScopeWitness.C08_leak_after_handle. Qed.
-(** D51: the arms of a handle are protected by that same handle *)
-Theorem C08_arm_protected_by_own_handle : unguarded (tabs_of ct1 [] [] p_leak_arm) p_leak_arm.
-Proof. exact ScopeWitness.C08_arm_protected_by_own_handle. Qed.
-(** D52: a function body inherits the caught set of its definition point *)
-Theorem C08_top_level_handle_leaks_into_functions : unguarded (tabs_of ct1 [] [] p_leak_fun) p_leak_fun.
-Proof. exact ScopeWitness.C08_top_level_handle_leaks_into_functions. Qed.
+Theorem C08_method_raises_unchecked :
+  unguarded_in restored (tabs_of ct1 [(2, [1])] [] p_method) p_method.
+Proof. exact (ScopeWitness.C08_method_raises_unchecked_in restored eq_refl). Qed.
 
-(** [handle_restores]: false of the code, true of the repaired threading. *)
-Theorem C08_handle_restores_refuted :
-  exists T e g x hs e' g',
-    check_stmt T as_is e g (SHandle x hs) = Ok (e', g') /\ e_caught e' <> e_caught e.
-Proof. exact ScopeWitness.handle_restores_refuted. Qed.
+(** Outside that class (no called method declares a raise) the code satisfies the full statement,
+    for every program: every raise inside a function body is guarded by an ancestor class. *)
+Theorem C08_sound_outside_known :
+  forall T p e g t o,
+    nm_stmts (t_meth T) p = true ->
+    check_program T restored p = Ok (e, g) -> ssruns T false [] p t o ->
+    all_events (raise_ok (t_cls T)) [[]] [] t.
+Proof. exact ScopeModes.C08_sound_restored. Qed.
 
-Theorem C08_handle_restores_strict :
-  forall T md e g x hs e' g',
-    m_restore md = true ->
-    check_stmt T md e g (SHandle x hs) = Ok (e', g') ->
-    e_caught e' = e_caught e /\ e_in_fun e' = e_in_fun e.
-Proof. exact ScopeWitness.handle_restores_strict. Qed.
+(** ... because there the code and the demanded rule set are the same function *)
+Theorem C08_restored_is_repaired_outside_known :
+  forall T ss e g, nm_stmts (t_meth T) ss = true ->
+    check_stmts T restored e g ss = check_stmts T repaired e g ss.
+Proof. intros T. exact (proj1 (proj2 (ScopeModes.stmt_modes T))). Qed.
 
-(** The repaired threading ([check_program T repaired]: restore after handle, own declared raises per
-    function, method raises checked) satisfies the full statement for every program ... *)
+(** The demanded rule set satisfies the full statement for every program. *)
 Theorem C08_sound_strict :
   forall T p e g t o,
     check_program T repaired p = Ok (e, g) -> ssruns T false [] p t o ->
     all_events (raise_ok (t_cls T)) [[]] [] t.
 Proof. exact ScopeProps.C08_sound_strict. Qed.
 
-(** ... so the code satisfies it outside the known class = the programs on which the two differ. *)
-Theorem C08_sound_outside_known :
-  forall T p e g e2 g2 t o,
-    check_program T repaired p = Ok (e2, g2) ->
-    check_program T as_is p = Ok (e, g) -> ssruns T false [] p t o ->
-    all_events (raise_ok (t_cls T)) [[]] [] t.
-Proof. exact ScopeWitness.C08_sound_outside_known. Qed.
+(** [handle_restores]: after a handle the caught set (and the in-function flag) is the one from before
+    it; together with [check_harms] being run on that restored environment this says that the arms are
+    not protected by their own handle.  Holds of the code (any mode with m_restore = true). *)
+Theorem C08_handle_restores :
+  forall T e g x hs e' g',
+    check_stmt T restored e g (SHandle x hs) = Ok (e', g') ->
+    e_caught e' = e_caught e /\ e_in_fun e' = e_in_fun e.
+Proof. intros T e g x hs e' g'. exact (ScopeWitness.handle_restores_strict T restored e g x hs e' g' eq_refl). Qed.
 
-(** Only descendants of Exception can be declared, at every nesting depth (code as it is). *)
+Theorem C08_handle_restores_any_restoring_mode :
+  forall T md e g x hs e' g',
+    m_restore md = true ->
+    check_stmt T md e g (SHandle x hs) = Ok (e', g') ->
+    e_caught e' = e_caught e /\ e_in_fun e' = e_in_fun e.
+Proof. exact ScopeWitness.handle_restores_strict. Qed.
+
+(** Only descendants of Exception can be declared, at every nesting depth. *)
 Theorem C08_only_exceptions_declared :
   forall T,
   (forall s strict e g e' g', check_stmt T strict e g s = Ok (e', g') ->
@@ -67,37 +72,58 @@ Theorem C08_has_parent_sound :
   forall ct o fuel c, has_parent fuel ct c o = HpT -> ancestor ct o c.
 Proof. exact ScopeProps.has_parent_sound. Qed.
 
-Example C08_example :
-  verdict_program ct1 [] [] p_example = VAccept /\ verdict_strict ct1 [] [] p_example = VAccept.
-Proof. split; vm_compute; reflexivity. Qed.
-Example C08_known_class_contains_witnesses :
-  verdict_strict ct1 [] [] p_leak_after = VReject KUnhandled /\
-  verdict_strict ct1 [] [] p_leak_arm = VReject KUnhandled /\
-  verdict_strict ct1 [] [] p_leak_fun = VReject KUnhandled /\
-  verdict_strict ct1 [(2, [1])] [] p_method = VReject KUnhandled.
-Proof. exact ScopeWitness.known_class_contains_witnesses. Qed.
+(** ** The rule set before the repair (kept: the check recognises a return to it)
+    D50 statements after a handle stayed protected, D51 arms were protected by their own handle,
+    D52 function bodies inherited the caught set of their definition point. *)
+Theorem C08_old_leak_after_handle : unguarded_in as_is (tabs_of ct1 [] [] p_leak_after) p_leak_after.
+Proof. exact ScopeWitness.C08_leak_after_handle. Qed.
+Theorem C08_old_arm_protected_by_own_handle : unguarded_in as_is (tabs_of ct1 [] [] p_leak_arm) p_leak_arm.
+Proof. exact ScopeWitness.C08_arm_protected_by_own_handle. Qed.
+Theorem C08_old_top_level_handle_leaks_into_functions :
+  unguarded_in as_is (tabs_of ct1 [] [] p_leak_fun) p_leak_fun.
+Proof. exact ScopeWitness.C08_top_level_handle_leaks_into_functions. Qed.
+Theorem C08_old_handle_restores_refuted :
+  exists T e g x hs e' g',
+    check_stmt T as_is e g (SHandle x hs) = Ok (e', g') /\ e_caught e' <> e_caught e.
+Proof. exact ScopeWitness.handle_restores_refuted. Qed.
 
-Check C08_sound_refuted : exists T p, unguarded T p.
+(** the code as it is rejects the three old witnesses, and still accepts the method call *)
+Example C08_old_witnesses_now_rejected :
+  verdict_restored ct1 [] [] p_leak_after = VReject KUnhandled /\
+  verdict_restored ct1 [] [] p_leak_arm = VReject KUnhandled /\
+  verdict_restored ct1 [] [] p_leak_fun = VReject KUnhandled /\
+  verdict_restored ct1 [(2, [1])] [] p_method = VAccept.
+Proof. exact ScopeWitness.leaks_rejected_restored. Qed.
+
+Example C08_example :
+  verdict_restored ct1 [] [] p_example = VAccept /\ verdict_strict ct1 [] [] p_example = VAccept /\
+  nm_stmts [] p_example = true.
+Proof. repeat split; vm_compute; reflexivity. Qed.
+
+Check C08_sound_refuted : exists T p, unguarded_in restored T p.
+Check C08_sound_outside_known :
+  forall T p e g t o,
+    nm_stmts (t_meth T) p = true ->
+    check_program T restored p = Ok (e, g) -> ssruns T false [] p t o ->
+    all_events (raise_ok (t_cls T)) [[]] [] t.
 Check C08_sound_strict :
   forall T p e g t o,
     check_program T repaired p = Ok (e, g) -> ssruns T false [] p t o ->
     all_events (raise_ok (t_cls T)) [[]] [] t.
-Check C08_sound_outside_known :
-  forall T p e g e2 g2 t o,
-    check_program T repaired p = Ok (e2, g2) ->
-    check_program T as_is p = Ok (e, g) -> ssruns T false [] p t o ->
-    all_events (raise_ok (t_cls T)) [[]] [] t.
-Check C08_handle_restores_refuted :
-  exists T e g x hs e' g',
-    check_stmt T as_is e g (SHandle x hs) = Ok (e', g') /\ e_caught e' <> e_caught e.
+Check C08_handle_restores :
+  forall T e g x hs e' g',
+    check_stmt T restored e g (SHandle x hs) = Ok (e', g') ->
+    e_caught e' = e_caught e /\ e_in_fun e' = e_in_fun e.
 Print Assumptions C08_sound_refuted.
 Print Assumptions C08_method_raises_unchecked.
-Print Assumptions C08_leak_after_handle.
-Print Assumptions C08_arm_protected_by_own_handle.
-Print Assumptions C08_top_level_handle_leaks_into_functions.
-Print Assumptions C08_handle_restores_refuted.
-Print Assumptions C08_handle_restores_strict.
-Print Assumptions C08_sound_strict.
 Print Assumptions C08_sound_outside_known.
+Print Assumptions C08_restored_is_repaired_outside_known.
+Print Assumptions C08_sound_strict.
+Print Assumptions C08_handle_restores.
+Print Assumptions C08_handle_restores_any_restoring_mode.
 Print Assumptions C08_only_exceptions_declared.
 Print Assumptions C08_has_parent_sound.
+Print Assumptions C08_old_leak_after_handle.
+Print Assumptions C08_old_arm_protected_by_own_handle.
+Print Assumptions C08_old_top_level_handle_leaks_into_functions.
+Print Assumptions C08_old_handle_restores_refuted.
